@@ -12,6 +12,7 @@ import (
 	"io"
 	"net/http"
 	"strings"
+	"sync"
 
 	"google.golang.org/grpc"
 	"google.golang.org/grpc/codes"
@@ -158,6 +159,8 @@ func (criFake) PodSandboxStatus(ctx context.Context, in *criapi.PodSandboxStatus
 // ---- daemon construction -----------------------------------------------------------------------------------
 
 // startDaemon is the body of the init task: what Galaxy.Start does, with injected collaborators.
+var gcFlagMu sync.Mutex
+
 func startDaemon(inst *Instance, p startParams) {
 	fail := func(stage string, err error) {
 		core.CallNow(core.Req{Op: "w.startfailed", A: []string{stage, err.Error()}})
@@ -190,12 +193,17 @@ func startDaemon(inst *Instance, p startParams) {
 	}
 	inst.g = g
 	inst.quit = make(chan struct{})
-	// the flag is process-global: set it for every daemon start (also back to the default)
+	// the flag is process-global: set it for every daemon start (also back to the default). Consecutive runs of one worker
+	// process start their daemons from different goroutines; the real mutex orders those writes (and the read in
+	// NewFlannelGC) for the race detector, which otherwise reports the harness against itself
+	gcFlagMu.Lock()
 	if err := flag.Set("gc_dirs", p.GCDirs); err != nil {
+		gcFlagMu.Unlock()
 		fail("flags", err)
 		return
 	}
 	inst.gc = gc.NewFlannelGC(client, dockerCli, inst.quit, g.VerifCleanIPtables)
+	gcFlagMu.Unlock()
 	if p.RunGC {
 		// Galaxy.Start: gc.NewFlannelGC(...).Run() comes before setupIPtables; its loops are simulator tasks
 		inst.gc.Run()
